@@ -112,8 +112,14 @@ impl<'a> Gen<'a> {
                 let w = self.word();
                 self.wrap(&w, 2)
             }
-            2 => self.rng.pick(&self.env.emoticons).to_string(),
-            3 => self.rng.pick(&self.env.emoji_names).to_string(),
+            2 => {
+                let v = &self.env.emoticons;
+                if self.rng.coin() { v[self.rng.usize(18)].to_string() } else { self.rng.pick(v).to_string() }
+            }
+            3 => {
+                let v = &self.env.emoji_names;
+                if self.rng.coin() { v[self.rng.usize(20)].to_string() } else { self.rng.pick(v).to_string() }
+            }
             _ => {
                 let n = self.rng.range(1, 6);
                 (0..n)
@@ -337,6 +343,16 @@ impl<'a> Gen<'a> {
                 6 => {
                     ops.push(Op::Restart { h: hb });
                     since_term[h] = 0;
+                }
+                7 if !cfgs[h].is_phonetic() && self.rng.pct(25) => {
+                    // fixed layout: a Bengali emoji name typed through the layout
+                    let name = self.rng.pick(&self.env.bn_emoji_names).to_string();
+                    if let Some(l) = self.env.layout(layout) {
+                        if let Some(keys) = self.fixed_keys_for_text(l, hb, &name) {
+                            since_term[h] += keys.len();
+                            ops.extend(keys);
+                        }
+                    }
                 }
                 7 => {
                     // a whole word, optionally followed by a selection-preserving key with
@@ -604,6 +620,16 @@ impl<'a> Gen<'a> {
             m: (if *altgr { 2 } else { 0 }) | (if self.rng.pct(20) { 1 } else { 0 }),
             sel: Sel::Raw(0),
         })
+    }
+
+    /// Keys that type `text` (Bengali) through a fixed layout, if every character has a key.
+    fn fixed_keys_for_text(&mut self, l: &LayoutInfo, h: u8, text: &str) -> Option<Vec<Op>> {
+        let mut ops = Vec::new();
+        for c in text.chars() {
+            let (k, altgr) = l.by_value.get(c.to_string().as_str())?;
+            ops.push(Op::Key { h, key: *k, m: if *altgr { 2 } else { 0 }, sel: Sel::Raw(0) });
+        }
+        Some(ops)
     }
 
     fn values_of_class<'l>(l: &'l LayoutInfo, pred: impl Fn(&str) -> bool) -> Vec<&'l str> {
